@@ -97,6 +97,13 @@ func roundTrips(r *core.Run) {
 
 		// Acknowledgement
 		a := packettypes.Acknowledgement{Code: core.GenUint64(rng), Result: core.GenBytes(rng, 80), Message: core.GenUTF8(rng, 40), Relayer: core.GenUTF8(rng, 44), FeeOption: core.GenUint64(rng)}
+		if i%8 == 3 {
+			// texts as error paths produce them: white space at the edges (a newline-terminated revert reason, padding)
+			a.Message = []string{"\n", "reverted\n", " x", "x ", "\t", "execution reverted: insufficient balance\n", "\r\n", "  "}[(i/8)%8]
+			if i%16 == 3 {
+				a.Relayer = " " + a.Relayer + "\n"
+			}
+		}
 		akey := fmt.Sprintf("ack/%d/%x/%q/%q/%d", a.Code, a.Result, a.Message, a.Relayer, a.FeeOption)
 		abz, err := a.ABIPack()
 		if err != nil {
